@@ -1,14 +1,17 @@
 (* C10 — Cleanups and list-spacing options do exactly what they say and nothing else.
    Proved: the cleanup keeps the block structure and maps every leaf through the documented rewrite
    (a heading whose whole content is bold loses the bold, bold-italic becomes italic), every other
-   leaf is untouched, at any nesting depth; the transform stage keeps every literal (C04).  The
-   list-spacing part (the modes change only separator lines) is decided on the implementation and
-   the extracted model by harness/c10.py.  Property theorems only. *)
+   leaf is untouched, at any nesting depth; the transform stage keeps every literal (C04).  List
+   spacing: for every document tree, every wrapper and every two modes the rendered outputs agree on
+   every line that is not empty up to quote markers and indentation (Proofs/SpacingProofs.v, a
+   simulation between the two renderer runs).  What the modes do to the tightness Marko reads back
+   is decided on the implementation by harness/c10.py.  Property theorems only. *)
 From Coq Require Import List NArith ZArith Bool.
 Import ListNotations.
 From Base Require Import PyStr CliTypes.
 From Model Require Import Ast Transforms.
-From Proofs Require Import RenderProofs.
+From Model Require Import Render.
+From Proofs Require Import RenderProofs SpacingProofs.
 
 Theorem C10_cleanup_touches_wholly_bold_headings_only : forall bs,
   map blk_shape (doc_cleanups bs) = map blk_shape bs /\
@@ -23,3 +26,27 @@ Example C10_example :
   wholly_bold (LHeading false 1 [INode KStrong [IRaw [97%N]]; IRaw [98%N]]) = None /\
   wholly_bold (LPara None [INode KStrong [IRaw [97%N]]]) = None.
 Proof. repeat split. Qed.
+
+(* [unblank t]: the lines of t that contain something other than spaces and quote markers.
+   wf_blk excludes HTML blocks, which flowmark's parser configuration never produces. *)
+Theorem C10_list_spacing_changes_only_blank_lines : forall wrapper refdefs s1 s2 blocks t1 t2,
+  Forall wf_blk blocks ->
+  render_doc wrapper s1 refdefs blocks = ret t1 ->
+  render_doc wrapper s2 refdefs blocks = ret t2 ->
+  unblank t1 = unblank t2.
+Proof. exact spacing_changes_blank_lines_only. Qed.
+Print Assumptions C10_list_spacing_changes_only_blank_lines.
+
+(* non-vacuity: a two-item list inside a quote renders differently under loose and tight, and the
+   difference is a blank (quote-marker) line *)
+Definition C10_example_doc : list blk :=
+  [BNode KQuote [BNode (KList false [45%N] 1%Z true)
+                   [BNode KItem [BLeaf (LPara None [IRaw [97%N]])]; BNode KItem [BLeaf (LPara None [IRaw [98%N]])]]]].
+Example C10_spacing_example :
+  let w := fun (t i1 i2 : str) => ret (i1 ++ t) in
+  exists t1 t2, render_doc w LLoose [] C10_example_doc = ret t1 /\ render_doc w LTight [] C10_example_doc = ret t2 /\
+                t1 <> t2 /\ unblank t1 = unblank t2 /\ Forall wf_blk C10_example_doc.
+Proof.
+  eexists. eexists. split; [vm_compute; reflexivity|]. split; [vm_compute; reflexivity|].
+  split; [intro E; discriminate E|]. split; [vm_compute; reflexivity|]. repeat constructor.
+Qed.
